@@ -206,7 +206,3 @@ def run(ctx: core.Ctx) -> core.Report:
                           {"message": sd_tok(m), "got": got[:5]})
     return rep
 
-
-def replay(ctx, data):
-    print(data)
-    return 0
